@@ -18,8 +18,8 @@ var validTopicPrefixes = []string{"usr", "p2p", "grp", "chn", "fnd", "sys"}
 
 func checkC13(c *Ctx) {
 	r := c.R
-	r.Explanation = "Structural defences against client-triggered crashes and silent requests: (1) every call site of the partial functions types.GetTopicCat / topicCat (they slice name[:3] and panic on unknown prefixes) receives an argument whose provenance is safe: a constant with a valid prefix, the name of an initialised topic, a topic name loaded from the store, or a value dominated by a prefix test or by a non-empty store lookup made with that very name; parameters are lifted to the callers (depth 3); (2) every nullable registry lookup (GetLogicalAuthHandler, GetAuthHandler, GetValidator, GetMediaHandler, the store's media handler global) is proven non-nil on every nil-feasible path before a method is invoked on it, except lookups by a constant name that configuration makes mandatory (exception rows); (3) reply obligation (F-REPLY): in each session-level request handler every path from entry to return, not passing through a store failure edge, passes a reply (queueOut*) or a hand-off of the request to a consumer that owes the reply (send on Hub.join/routeCli/meta/unreg, Subscription.broadcast/meta/done); (4) the id argument of reply constructors in those handlers derives from the request's id; (6) the pre-login token authenticator slices the supplied secret only under a length test on the very bound of the slice (shared with C12); (5) census of explicit panic / log.Panic / log.Fatal sites reachable in the call graph from network-facing goroutine roots, compared with the reviewed table."
-	r.NotDecided = []string{"arbitrary nil dereferences, index and slice bounds and type assertions over all inputs (in particular drafty/grapheme preview rendering)", "replies owed by consumers further down than one level", "store failures"}
+	r.Explanation = "Structural defences against client-triggered crashes and silent requests: (1) every call site of the partial functions types.GetTopicCat / topicCat (they slice name[:3] and panic on unknown prefixes) receives an argument whose provenance is safe: a constant with a valid prefix, the name of an initialised topic, a topic name loaded from the store, or a value dominated by a prefix test or by a non-empty store lookup made with that very name; parameters are lifted to the callers (depth 3); (2) every nullable registry lookup (GetLogicalAuthHandler, GetAuthHandler, GetValidator, GetMediaHandler, the store's media handler global) is proven non-nil on every nil-feasible path before a method is invoked on it, except lookups by a constant name that configuration makes mandatory (exception rows); (3) reply obligation (F-REPLY): in each session-level request handler every path from entry to return, not passing through a store failure edge, passes a reply (queueOut*) or a hand-off of the request to a consumer that owes the reply (send on Hub.join/routeCli/meta/unreg, Subscription.broadcast/meta/done); (4) the id argument of reply constructors in those handlers derives from the request's id; (6) the pre-login token authenticator slices the supplied secret only under a length test on the very bound of the slice (shared with C12); (5) census of explicit panic / log.Panic / log.Fatal sites reachable in the call graph from network-facing goroutine roots, compared with the reviewed table; (7) a function that merges the errors of several validation steps does not let a later step overwrite an earlier error unseen; (8) rich-text previews: a span built from a client's style is kept only behind start >= -1, end <= grapheme length and end >= start, and the entity list is indexed by the style's key only behind both bounds."
+	r.NotDecided = []string{"arbitrary nil dereferences, index and slice bounds and type assertions over all inputs (in the drafty/grapheme preview rendering only the span and entity bounds of toTree are decided)", "replies owed by consumers further down than one level", "store failures"}
 	r.Trusted = []string{"go/types, go/ssa, VTA call graph", "the database only holds topic names that were validated when created", "package-level configuration (media handler, auth handlers) is set once at start-up"}
 
 	c.checkPartialCalls()
